@@ -142,7 +142,9 @@ def _narrowing(e, limit_bits):
 def check_addressing(chk, cfg, m, fn, role):
     tag = "%s[%s]" % (fn.name, cfg)
     n = 0
-    for p in paths.enumerate_paths(fn, m):
+    # claim contains the CAS retry loop (at most one retry examined; the address is computed from the index the
+    # successful CAS returned, whichever iteration that was)
+    for p in paths.enumerate_paths(fn, m, loop_bound=1 if role == "claim" else None):
         if paths.is_assert_fail_path(p):
             continue
         pathid = "%s path %s" % (tag, "->".join(b.lstrip("%") for b in p.blocks))
